@@ -84,6 +84,7 @@ Proof. decide equality; try apply Nat.eq_dec; apply Bool.bool_dec. Qed.
 Section Generic.
   Context {F : Type}.
   Variable G : Geo F.
+  Variable fx : bool.   (* Drawing.v: false = the code as it stands, true = with findings/C16-F1-fix.diff *)
   Local Notation pt := (F * F)%type.
   Local Notation nodeT := (@node F).
   Local Notation labT := (@lab F).
@@ -520,15 +521,17 @@ Section Generic.
   Qed.
 
   Lemma delete_node_at_segs (st : drawingT) i :
-    (forall s, In s (d_segs st) -> touches i s = true -> ssel s = false) ->
-    d_segs (delete_node_at st i) =
+    (fx = true \/ forall s, In s (d_segs st) -> touches i s = true -> ssel s = false) ->
+    d_segs (delete_node_at fx st i) =
     map (dec_above i) (filter (fun a => negb (ssel a) && negb (touches i a)) (d_segs st)).
   Proof.
     intros Hg. unfold delete_node_at; cbn. f_equal.
     induction (d_segs st) as [|a l IH]; cbn; auto.
-    rewrite IH by (intros; apply Hg; cbn; auto).
+    rewrite IH by (destruct Hg as [Hg|Hg]; [left; exact Hg|right; intros; apply Hg; cbn; auto]).
     destruct (touches i a) eqn:T.
-    - rewrite (Hg a) by (cbn; auto). cbn. reflexivity.
+    - destruct Hg as [->|Hg].
+      + cbn. rewrite andb_false_r. reflexivity.
+      + rewrite (Hg a) by (cbn; auto). destruct fx; cbn; reflexivity.
     - cbn. destruct (ssel a); cbn; reflexivity.
   Qed.
 
@@ -538,13 +541,13 @@ Section Generic.
 
   Lemma delete_node_at_Inv2 (st : drawingT) i :
     Inv2 st -> i < NN st ->
-    (forall s, In s (d_segs st) -> touches i s = true -> ssel s = false) ->
-    Inv2 (delete_node_at st i) /\ segs_unselected (delete_node_at st i) /\
-    d_dsplit (delete_node_at st i) = d_dsplit st /\ NN (delete_node_at st i) = NN st - 1.
+    (fx = true \/ forall s, In s (d_segs st) -> touches i s = true -> ssel s = false) ->
+    Inv2 (delete_node_at fx st i) /\ segs_unselected (delete_node_at fx st i) /\
+    d_dsplit (delete_node_at fx st i) = d_dsplit st /\ NN (delete_node_at fx st i) = NN st - 1.
   Proof.
     intros [W D] Hi Hg.
     pose proof (delete_node_at_segs st i Hg) as ES.
-    assert (EN : NN (delete_node_at st i) = NN st - 1).
+    assert (EN : NN (delete_node_at fx st i) = NN st - 1).
     { unfold NN, delete_node_at; cbn. apply remove_nth_length. exact Hi. }
     assert (Wk : forall a, In a (filter (fun a => negb (ssel a) && negb (touches i a)) (d_segs st)) ->
                  s0 a < NN st /\ s1 a < NN st /\ s0 a <> s1 a /\ s0 a <> i /\ s1 a <> i /\ ssel a = false).
@@ -573,25 +576,26 @@ Section Generic.
   Qed.
 
   Lemma delete_loop_Inv2 : forall fuel i (st : drawingT),
-    Inv2 st -> del_guard st ->
-    Inv2 (delete_nodes_loop G fuel i st) /\
-    (d_dsplit st = true -> d_dsplit (delete_nodes_loop G fuel i st) = true).
+    Inv2 st -> (fx = true \/ del_guard st) ->
+    Inv2 (delete_nodes_loop G fx fuel i st) /\
+    (d_dsplit st = true -> d_dsplit (delete_nodes_loop G fx fuel i st) = true).
   Proof.
     induction fuel as [|fuel IH]; intros i st I Gd; [cbn; auto|]. cbn [delete_nodes_loop].
     destruct (Nat.ltb_spec i (length (d_nodes st))) as [Hi|Hi]; [|auto].
     destruct (nsel (node_at G (d_nodes st) i)) eqn:S; [|apply IH; auto].
-    assert (Hg : forall s, In s (d_segs st) -> touches i s = true -> ssel s = false).
-    { intros s Hs T. destruct (ssel s) eqn:E; auto. destruct (Gd s Hs E) as [A B].
+    assert (Hg : fx = true \/ forall s, In s (d_segs st) -> touches i s = true -> ssel s = false).
+    { destruct Gd as [Gd|Gd]; [left; exact Gd|right].
+      intros s Hs T. destruct (ssel s) eqn:E; auto. destruct (Gd s Hs E) as [A B].
       unfold touches in T. apply orb_true_iff in T. destruct T as [T|T]; apply Nat.eqb_eq in T; subst i; congruence. }
     destruct (delete_node_at_Inv2 st i I Hi Hg) as (I1 & U & Dd & _).
-    destruct (IH i (delete_node_at st i) I1) as [I2 D2].
-    { intros s Hs E. rewrite (U s Hs) in E. discriminate. }
+    destruct (IH i (delete_node_at fx st i) I1) as [I2 D2].
+    { right. intros s Hs E. rewrite (U s Hs) in E. discriminate. }
     split; [exact I2|]. intros D. apply D2. rewrite Dd. exact D.
   Qed.
 
   Lemma deleteSelectedNodes_Inv2 (st : drawingT) :
-    Inv2 st -> del_guard st ->
-    Inv2 (deleteSelectedNodes G st) /\ (d_dsplit st = true -> d_dsplit (deleteSelectedNodes G st) = true).
+    Inv2 st -> (fx = true \/ del_guard st) ->
+    Inv2 (deleteSelectedNodes G fx st) /\ (d_dsplit st = true -> d_dsplit (deleteSelectedNodes G fx st) = true).
   Proof. intros. unfold deleteSelectedNodes. apply delete_loop_Inv2; auto. Qed.
 
   (* ---- the raw move / copy passes do not touch the ghost flag ------------------------------- *)
@@ -629,11 +633,11 @@ Section Generic.
 
   (* ---- every command ------------------------------------------------------------------------- *)
   Definition op_guard (st : drawingT) (o : opT) : Prop :=
-    match o with ODeleteSelectedNodes => del_guard st | _ => True end.
+    match o with ODeleteSelectedNodes => fx = true \/ del_guard st | _ => True end.
 
   Lemma step_Inv2 fuel (st : drawingT) (o : opT) :
     Inv2 st -> op_guard st o ->
-    Inv2 (step G fuel st o) /\ (d_dsplit st = true -> d_dsplit (step G fuel st o) = true).
+    Inv2 (step G fx fuel st o) /\ (d_dsplit st = true -> d_dsplit (step G fx fuel st o) = true).
   Proof.
     intros I Gd. destruct o; cbn [step].
     - (* OAddNode *) split; [apply Inv2_addNode; auto|apply ext_addNode].
@@ -665,7 +669,7 @@ Section Generic.
     - (* ODeleteSelected *)
       destruct (deleteSelectedNodes_Inv2 (deleteSelectedSegments st)) as [A B].
       + apply Inv2_deleteSelectedSegments; auto.
-      + intros s Hs E. cbn in Hs. apply filter_In in Hs. destruct Hs as [_ Hs]. rewrite E in Hs. discriminate.
+      + right. intros s Hs E. cbn in Hs. apply filter_In in Hs. destruct Hs as [_ Hs]. rewrite E in Hs. discriminate.
       + split; [eapply Inv2_frame; [| | |exact A]; reflexivity|exact B].
     - (* ODeleteSelectedNodes *) apply deleteSelectedNodes_Inv2; auto.
     - (* ODeleteSelectedSegments *) split; [apply Inv2_deleteSelectedSegments; auto|auto].
@@ -698,7 +702,7 @@ Section Generic.
   Fixpoint guarded (fuel : nat) (st : drawingT) (ops : list opT) : Prop :=
     match ops with
     | [] => True
-    | o :: r => op_guard st o /\ guarded fuel (step G fuel st o) r
+    | o :: r => op_guard st o /\ guarded fuel (step G fx fuel st o) r
     end.
   Definition is_delnodes (o : opT) : bool := match o with ODeleteSelectedNodes => true | _ => false end.
 
@@ -707,7 +711,7 @@ Section Generic.
 
   Lemma run_Inv2 fuel (ops : list opT) : forall (st : drawingT),
     Inv2 st -> guarded fuel st ops ->
-    Inv2 (run G fuel ops st) /\ (d_dsplit st = true -> d_dsplit (run G fuel ops st) = true).
+    Inv2 (run G fx fuel ops st) /\ (d_dsplit st = true -> d_dsplit (run G fx fuel ops st) = true).
   Proof.
     unfold run. induction ops as [|o ops IH]; cbn; intros st I Gd; [auto|].
     destruct Gd as [G1 G2]. destruct (step_Inv2 fuel st o I G1) as [I1 D1].
@@ -722,16 +726,32 @@ Section Generic.
     destruct o; cbn in *; auto; discriminate.
   Qed.
 
+  Lemma guarded_fixed fuel (ops : list opT) : forall (st : drawingT), fx = true -> guarded fuel st ops.
+  Proof.
+    induction ops as [|o ops IH]; cbn; intros st H; auto. split; [|apply IH; auto].
+    destruct o; cbn; auto.
+  Qed.
+
   (* the reachable drawings: every segment joins two distinct existing points *)
   Theorem wf_reachable fuel (ops : list opT) :
-    guarded fuel empty ops -> WF (run G fuel ops empty).
+    guarded fuel empty ops -> WF (run G fx fuel ops empty).
   Proof. intros H. apply (run_Inv2 fuel ops empty Inv2_empty H). Qed.
 
   (* ... and no segment is duplicated unless some addNode split two segments with a common end *)
   Theorem nodup_reachable fuel (ops : list opT) :
-    guarded fuel empty ops -> d_dsplit (run G fuel ops empty) = false -> NoDupSeg (d_segs (run G fuel ops empty)).
+    guarded fuel empty ops -> d_dsplit (run G fx fuel ops empty) = false -> NoDupSeg (d_segs (run G fx fuel ops empty)).
   Proof.
     intros H D. destruct (run_Inv2 fuel ops empty Inv2_empty H) as [[_ [E|E]] _]; [congruence|exact E].
+  Qed.
+
+  (* the repaired code (fx = true): no guard is needed, for all sequences *)
+  Theorem inv_reachable_repaired fuel (ops : list opT) :
+    fx = true ->
+    WF (run G fx fuel ops empty) /\
+    (d_dsplit (run G fx fuel ops empty) = false -> NoDupSeg (d_segs (run G fx fuel ops empty))).
+  Proof.
+    intros H. pose proof (guarded_fixed fuel ops empty H) as Gd.
+    split; [apply wf_reachable; exact Gd|apply nodup_reachable; exact Gd].
   Qed.
 
   (* ---- addNode never puts a point within d of an existing point or block label ------------- *)
@@ -850,14 +870,14 @@ Section Generic.
   Lemma firstn_S_nth {T} (l : list T) dflt : forall i, i < length l -> firstn (S i) l = firstn i l ++ [nth i l dflt].
   Proof. induction l as [|a l IH]; intros [|i] H; cbn in *; try lia; auto. f_equal. apply IH. lia. Qed.
 
-  Lemma delete_node_at_nodes (st : drawingT) i : d_nodes (delete_node_at st i) = remove_nth (d_nodes st) i.
+  Lemma delete_node_at_nodes (st : drawingT) i : d_nodes (delete_node_at fx st i) = remove_nth (d_nodes st) i.
   Proof. reflexivity. Qed.
 
   Definition unsel (n : nodeT) : bool := negb (nsel n).
 
   Lemma delete_loop_nodes : forall fuel i (st : drawingT),
     length (d_nodes st) - i <= fuel -> i <= length (d_nodes st) ->
-    d_nodes (delete_nodes_loop G fuel i st) = firstn i (d_nodes st) ++ filter unsel (skipn i (d_nodes st)).
+    d_nodes (delete_nodes_loop G fx fuel i st) = firstn i (d_nodes st) ++ filter unsel (skipn i (d_nodes st)).
   Proof.
     induction fuel as [|fuel IH]; intros i st Hf Hi.
     - cbn. assert (i = length (d_nodes st)) by lia. subst i.
@@ -881,7 +901,7 @@ Section Generic.
 
   (* the points that remain are exactly the unselected ones, in their order *)
   Lemma deleteSelectedNodes_nodes (st : drawingT) :
-    d_nodes (deleteSelectedNodes G st) = filter unsel (d_nodes st).
+    d_nodes (deleteSelectedNodes G fx st) = filter unsel (d_nodes st).
   Proof. unfold deleteSelectedNodes. rewrite delete_loop_nodes by lia. reflexivity. Qed.
 
   (* what a segment refers to: its two end NODES (coordinates, group, properties) and its own attributes *)
@@ -906,10 +926,10 @@ Section Generic.
 
   Lemma delete_node_at_cview (st : drawingT) i :
     segs_unselected st ->
-    cview (delete_node_at st i) = map (sview (d_nodes st)) (filter (fun a => negb (touches i a)) (d_segs st)) /\
-    segs_unselected (delete_node_at st i).
+    cview (delete_node_at fx st i) = map (sview (d_nodes st)) (filter (fun a => negb (touches i a)) (d_segs st)) /\
+    segs_unselected (delete_node_at fx st i).
   Proof.
-    intros U. pose proof (delete_node_at_segs st i (fun s Hs _ => U s Hs)) as ES.
+    intros U. pose proof (delete_node_at_segs st i (or_intror (fun s Hs _ => U s Hs))) as ES.
     assert (EF : filter (fun a => negb (ssel a) && negb (touches i a)) (d_segs st) =
                  filter (fun a => negb (touches i a)) (d_segs st)).
     { apply filter_ext_in. intros a Ha. rewrite (U a Ha). reflexivity. }
@@ -924,7 +944,7 @@ Section Generic.
 
   Lemma delete_loop_cview : forall fuel i (st : drawingT),
     segs_unselected st ->
-    filter ends_unselected (cview (delete_nodes_loop G fuel i st)) = filter ends_unselected (cview st).
+    filter ends_unselected (cview (delete_nodes_loop G fx fuel i st)) = filter ends_unselected (cview st).
   Proof.
     induction fuel as [|fuel IH]; intros i st U; [reflexivity|]. cbn [delete_nodes_loop].
     destruct (Nat.ltb i (length (d_nodes st))); [|reflexivity].
@@ -953,20 +973,20 @@ Section Generic.
      with a deleted end point disappear; the order is kept *)
   Theorem delete_renumbers_consistently (st : drawingT) :
     segs_unselected st ->
-    cview (deleteSelectedNodes G st) = filter ends_unselected (cview st).
+    cview (deleteSelectedNodes G fx st) = filter ends_unselected (cview st).
   Proof.
     intros U. rewrite <- (delete_loop_cview (length (d_nodes st)) 0 st U).
-    fold (deleteSelectedNodes G st). symmetry.
-    assert (A : forall n, In n (d_nodes (deleteSelectedNodes G st)) -> nsel n = false).
+    fold (deleteSelectedNodes G fx st). symmetry.
+    assert (A : forall n, In n (d_nodes (deleteSelectedNodes G fx st)) -> nsel n = false).
     { intros n Hn. rewrite deleteSelectedNodes_nodes in Hn. apply filter_In in Hn.
       destruct Hn as [_ Hn]. apply negb_true_iff in Hn. exact Hn. }
-    unfold cview. induction (d_segs (deleteSelectedNodes G st)) as [|a l IH]; cbn; auto.
+    unfold cview. induction (d_segs (deleteSelectedNodes G fx st)) as [|a l IH]; cbn; auto.
     unfold ends_unselected at 1, sview at 1. cbn. rewrite !node_at_unsel by exact A. cbn. f_equal. apply IH.
   Qed.
 
   (* ---- which commands end with an empty selection ------------------------------------------------ *)
   Lemma deleteSelectedNodes_segs_unsel (st : drawingT) :
-    segs_unselected st -> segs_unselected (deleteSelectedNodes G st).
+    segs_unselected st -> segs_unselected (deleteSelectedNodes G fx st).
   Proof.
     unfold deleteSelectedNodes. generalize (length (d_nodes st)) as fuel. intros fuel.
     generalize 0 as i. revert st. induction fuel as [|fuel IH]; intros st i U; [exact U|]. cbn [delete_nodes_loop].
@@ -975,7 +995,7 @@ Section Generic.
     apply IH. apply delete_node_at_cview. exact U.
   Qed.
 
-  Lemma deleteSelectedNodes_labs (st : drawingT) : d_labs (deleteSelectedNodes G st) = d_labs st.
+  Lemma deleteSelectedNodes_labs (st : drawingT) : d_labs (deleteSelectedNodes G fx st) = d_labs st.
   Proof.
     unfold deleteSelectedNodes. generalize (length (d_nodes st)) as fuel. intros fuel.
     generalize 0 as i. revert st. induction fuel as [|fuel IH]; intros st i; [reflexivity|]. cbn [delete_nodes_loop].
@@ -994,7 +1014,7 @@ Section Generic.
     end.
 
   Theorem step_clears_selection fuel (st : drawingT) (o : opT) :
-    clears_selection o = true -> nosel (step G fuel st o).
+    clears_selection o = true -> nosel (step G fx fuel st o).
   Proof.
     destruct o; cbn [clears_selection step]; try discriminate; intros H.
     - apply nosel_unselectAll.
@@ -1004,11 +1024,11 @@ Section Generic.
       assert (U1 : segs_unselected st1).
       { intros s Hs. cbn in Hs. apply filter_In in Hs. destruct Hs as [_ Hs]. apply negb_true_iff in Hs. exact Hs. }
       repeat split.
-      + intros n Hn. change (In n (d_nodes (deleteSelectedNodes G st1))) in Hn.
+      + intros n Hn. change (In n (d_nodes (deleteSelectedNodes G fx st1))) in Hn.
         rewrite deleteSelectedNodes_nodes in Hn. apply filter_In in Hn.
         destruct Hn as [_ Hn]. apply negb_true_iff in Hn. exact Hn.
-      + change (segs_unselected (deleteSelectedNodes G st1)). apply deleteSelectedNodes_segs_unsel. exact U1.
-      + intros l Hl. change (In l (filter (fun l => negb (lsel l)) (d_labs (deleteSelectedNodes G st1)))) in Hl.
+      + change (segs_unselected (deleteSelectedNodes G fx st1)). apply deleteSelectedNodes_segs_unsel. exact U1.
+      + intros l Hl. change (In l (filter (fun l => negb (lsel l)) (d_labs (deleteSelectedNodes G fx st1)))) in Hl.
         apply filter_In in Hl. destruct Hl as [_ Hl]. apply negb_true_iff in Hl. exact Hl.
     - rewrite H. apply enforcePSLG_nosel.
     - rewrite H. apply enforcePSLG_nosel.
@@ -1021,7 +1041,7 @@ Section Generic.
 
   (* mi_addsegment: either the drawing is untouched (degenerate or duplicate request) or nothing is selected *)
   Theorem addsegment_clears_selection fuel (st : drawingT) x0 y0 x1 y1 :
-    step G (S fuel) st (OAddSegment x0 y0 x1 y1) = st \/ nosel (step G (S fuel) st (OAddSegment x0 y0 x1 y1)).
+    step G fx (S fuel) st (OAddSegment x0 y0 x1 y1) = st \/ nosel (step G fx (S fuel) st (OAddSegment x0 y0 x1 y1)).
   Proof. cbn [step]. apply addSegment_clears_selection. Qed.
 
   (* ---- the copies made by one pass of translateCopy / rotateCopy / mirrorCopy --------------------- *)
@@ -1473,13 +1493,17 @@ Section Refutations.
      selected is toggled OFF by deleteSelectedNodes, survives, and now joins point 0 with itself *)
   Definition ops_F1 : list opF :=
     [OAddNode 0 0; OAddNode 1 0; OAddSegment 0 0 1 0; OSelectSegment 0x1p-1 0; OSelectNode 0 0; ODeleteSelectedNodes].
-  Lemma wf_unguarded_refuted : exists ops : list opF, ~ WF (run (geoA FA) FUEL ops empty).
+  Lemma wf_unguarded_refuted : exists ops : list opF, ~ WF (run (geoA FA) false FUEL ops empty).
   Proof.
     exists ops_F1. intros W. apply WF_wfb in W. revert W. vm_compute. discriminate.
   Qed.
+  (* the same commands on the repaired code: the selected segment goes with its end point *)
+  Lemma F1_repaired_state :
+    d_segs (run (geoA FA) true FUEL ops_F1 empty) = [] /\ length (d_nodes (run (geoA FA) true FUEL ops_F1 empty)) = 1%nat.
+  Proof. vm_compute. auto. Qed.
   Lemma F1_final_state :
-    map (fun s => (s0 s, s1 s)) (d_segs (run (geoA FA) FUEL ops_F1 empty)) = [(0, 0)%nat] /\
-    length (d_nodes (run (geoA FA) FUEL ops_F1 empty)) = 1%nat.
+    map (fun s => (s0 s, s1 s)) (d_segs (run (geoA FA) false FUEL ops_F1 empty)) = [(0, 0)%nat] /\
+    length (d_nodes (run (geoA FA) false FUEL ops_F1 empty)) = 1%nat.
   Proof. vm_compute. auto. Qed.
 
   (* F2: a point within the tolerance of two segments that share an end point splits both:
@@ -1489,15 +1513,15 @@ Section Refutations.
      OAddSegment 0 0 1 0; OAddSegment 0 0 1 0x1.4f8b588e368f1p-16;
      OAddNode 0x1.999999999999ap-5 0x1.0c6f7a0b5ed8dp-21].
   Lemma nodup_unflagged_refuted :
-    exists ops : list opF, guarded (geoA FA) FUEL empty ops /\ ~ NoDupSeg (d_segs (run (geoA FA) FUEL ops empty)).
+    exists ops : list opF, guarded (geoA FA) false FUEL empty ops /\ ~ NoDupSeg (d_segs (run (geoA FA) false FUEL ops empty)).
   Proof.
     exists ops_F2. split.
     - apply guarded_no_delnodes. reflexivity.
     - intros N. apply NoDupSeg_nodupb in N. revert N. vm_compute. discriminate.
   Qed.
   Lemma F2_final_state :
-    map (fun s => (s0 s, s1 s)) (d_segs (run (geoA FA) FUEL ops_F2 empty)) = [(0, 3); (0, 3); (3, 1); (3, 2)]%nat /\
-    d_dsplit (run (geoA FA) FUEL ops_F2 empty) = true.
+    map (fun s => (s0 s, s1 s)) (d_segs (run (geoA FA) false FUEL ops_F2 empty)) = [(0, 3); (0, 3); (3, 1); (3, 2)]%nat /\
+    d_dsplit (run (geoA FA) false FUEL ops_F2 empty) = true.
   Proof. vm_compute. auto. Qed.
 
   (* F3: "no two points closer than the snap tolerance" is not an invariant: the tolerance is
@@ -1511,7 +1535,7 @@ Section Refutations.
        end) (d_nodes st).
   Definition ops_F3 : list opF := [OAddNode 0 0; OAddNode 0x1.ad7f29abcaf48p-24 0; OAddNode 1000 0].
   Lemma snap_tolerance_global_refuted :
-    exists ops : list opF, guarded (geoA FA) FUEL empty ops /\ snap_ok (run (geoA FA) FUEL ops empty) = false.
+    exists ops : list opF, guarded (geoA FA) false FUEL empty ops /\ snap_ok (run (geoA FA) false FUEL ops empty) = false.
   Proof.
     exists ops_F3. split; [apply guarded_no_delnodes; reflexivity|]. vm_compute. reflexivity.
   Qed.
@@ -1528,8 +1552,8 @@ Section Refutations.
     [OAddNode 0 0; OAddNode 1 0; OAddSegment 0 0 1 0; OSelectNode 0 0; OMoveTranslate 1 0 0].
   Lemma coincident_points_refuted :
     exists ops : list opF,
-      guarded (geoA FA) FUEL empty ops /\ (distinct_pts (run (geoA FA) FUEL ops empty) = false) /\
-      (length (d_segs (run (geoA FA) FUEL ops empty)) = 0%nat).
+      guarded (geoA FA) false FUEL empty ops /\ (distinct_pts (run (geoA FA) false FUEL ops empty) = false) /\
+      (length (d_segs (run (geoA FA) false FUEL ops empty)) = 0%nat).
   Proof.
     exists ops_F6. split; [apply guarded_no_delnodes; reflexivity|]. vm_compute. auto.
   Qed.
@@ -1539,23 +1563,23 @@ Section Refutations.
     [OAddNode 0 0; OAddNode 2 0; OAddNode 1 0; OAddNode 1 1; OAddSegment 0 0 2 0; OAddSegment 1 0 1 1;
      OSelectSegment 1 0x1p-1; OCopyTranslate 0 1 2 1].
   Lemma example_reachable :
-    guarded (geoA FA) FUEL empty ops_ex /\
-    length (d_segs (run (geoA FA) FUEL ops_ex empty)) = 5%nat /\
-    length (d_nodes (run (geoA FA) FUEL ops_ex empty)) = 6%nat /\
-    d_dsplit (run (geoA FA) FUEL ops_ex empty) = false /\ d_oof (run (geoA FA) FUEL ops_ex empty) = false.
+    guarded (geoA FA) false FUEL empty ops_ex /\
+    length (d_segs (run (geoA FA) false FUEL ops_ex empty)) = 5%nat /\
+    length (d_nodes (run (geoA FA) false FUEL ops_ex empty)) = 6%nat /\
+    d_dsplit (run (geoA FA) false FUEL ops_ex empty) = false /\ d_oof (run (geoA FA) false FUEL ops_ex empty) = false.
   Proof. split; [apply guarded_no_delnodes; reflexivity|]. vm_compute. auto. Qed.
 
   (* the hypotheses of the deletion, copy and metric theorems hold on that reachable drawing *)
   Lemma example_hypotheses :
-    let st := run (geoA FA) FUEL ops_ex empty in
+    let st := run (geoA FA) false FUEL ops_ex empty in
     WF st /\ segs_unselected st /\ sel_valid st /\ g_is0 (geoA FA) (auto_tol (geoA FA) (d_nodes st)) = false.
   Proof.
     cbv zeta.
-    assert (W : WF (run (geoA FA) FUEL ops_ex empty)).
+    assert (W : WF (run (geoA FA) false FUEL ops_ex empty)).
     { apply wf_reachable. apply guarded_no_delnodes. reflexivity. }
     split; [exact W|]. split; [|split; [apply WF_sel_valid; exact W|vm_compute; reflexivity]].
     intros s Hs.
-    assert (E : forallb (fun s => negb (ssel s)) (d_segs (run (geoA FA) FUEL ops_ex empty)) = true) by (vm_compute; reflexivity).
+    assert (E : forallb (fun s => negb (ssel s)) (d_segs (run (geoA FA) false FUEL ops_ex empty)) = true) by (vm_compute; reflexivity).
     rewrite forallb_forall in E. apply negb_true_iff. apply E. exact Hs.
   Qed.
 End Refutations.
